@@ -375,8 +375,8 @@ var nodeDefs = map[string]nodeDef{
 	"alertmod":   {"|alert()\n    .crit(lambda: count() %% %d == 0)\n    .levelField('o')", false, 1},
 	"sum":        {"|sum('v')\n    .as('o')", false, 0},
 	"count":      {"|count('v')\n    .as('o')", false, 0},
-	// modelled WITH the recorded sharing (finding nested-lambda-state-shared): a lambda var used as a nested lambda
-	// node keeps one ExecutionState for all groups; the outer expression's own count() is per group
+	// a lambda var used as a nested lambda node: its ExecutionState is per CopyReset copy = per group since fix dcda92d
+	// (it was one for all groups: former finding nested-lambda-state-shared), like the outer expression's own count()
 	"wherenested": {"|where(lambda: nl AND count() %% 2 == 1)", false, 0},
 	"evalnested":  {"|eval(lambda: nc * 1000 + count())\n    .as('o')", false, 0},
 	// stateCount / stateDuration whose lambda holds a stateful function (CopyReset per group in StateTrackingNode.newGroup)
